@@ -40,7 +40,7 @@ func init() { core.Register(prop{}) }
 func (prop) ID() string    { return "C15" }
 func (prop) Level() string { return "exploration" }
 func (prop) Rule() string {
-	return "scenario = one client exchange through a proxying service configured with a forward director: http-proxy (sequences of 1..3 generated requests: methods, targets, 0..10 headers incl. repeated names, bodies 0..64 KiB with content-length or chunked; lock-step and pipelined, every single cut point for short streams, sampled cuts beyond; backend replies with bodies 0..64 KiB written in seeded chunks), ssh-proxy (password accepted/rejected by the backend, env/pty-req/exec/shell requests, channel data 0..64 KiB both ways), copy (arbitrary TCP streams and datagrams), dns-proxy (queries and answers); 1..3 concurrent client connections. Oracle: backend-received == client-sent, client-received == backend-sent, one event per relayed request attributed to the client, no connection to the decoy listener. Non-trivial = the backend received >=1 byte; distinct by scenario parameters. Also: a first write that carries complete requests plus the first bytes of the next one, replies awaited before the rest is sent (overlap); copy-tcp clients that half-close before the backend answers; and for the first scenarios of every part a system-call trace of connect(): every connect to an internet address must name a backend. A copy service with one shared forward director listens on tcp and udp (backends with the same port number); copy-both scenarios alternate datagrams and connections through it, udp first in some child processes and tcp first in others. A third of the ssh scenarios make 2..12 password attempts on one proxied connection (the backend turns all but possibly the last one down): every attempt must reach the backend, in order, and give one event. http-drop: the backend reads the last request of a lock-step sequence and closes without answering; every request the backend received must have its event."
+	return "scenario = one client exchange through a proxying service configured with a forward director: http-proxy (sequences of 1..3 generated requests: methods, targets, 0..10 headers incl. repeated names, bodies 0..64 KiB with content-length or chunked; lock-step and pipelined, every single cut point for short streams, sampled cuts beyond; backend replies with bodies 0..64 KiB written in seeded chunks), ssh-proxy (password accepted/rejected by the backend, env/pty-req/exec/shell requests, channel data 0..64 KiB both ways), copy (arbitrary TCP streams and datagrams), dns-proxy (queries and answers); 1..3 concurrent client connections. Oracle: backend-received == client-sent, client-received == backend-sent, one event per relayed request attributed to the client, no connection to the decoy listener. Non-trivial = the backend received >=1 byte; distinct by scenario parameters. Also: a first write that carries complete requests plus the first bytes of the next one, replies awaited before the rest is sent (overlap); copy-tcp clients that half-close before the backend answers; and for the first scenarios of every part a system-call trace of connect(): every connect to an internet address must name a backend. A copy service with one shared forward director listens on tcp and udp (backends with the same port number); copy-both scenarios alternate datagrams and connections through it, udp first in some child processes and tcp first in others. A third of the ssh scenarios make 2..12 password attempts on one proxied connection (the backend turns all but possibly the last one down): every attempt must reach the backend, in order, and give one event. http-drop: the backend reads the last request of a lock-step sequence and closes without answering; every request the backend received must have its event. dns queries vary the question type and include a bare header, a question-less message with an OPT record, two questions and opcode STATUS."
 }
 func (prop) Assumptions() []string {
 	return []string{"differences HTTP intermediaries may make are not violations: order between different header names, chunked <-> content-length re-framing with identical body, header-name case", "a header the client did not send that appears at the backend is reported under its own signature"}
